@@ -65,6 +65,49 @@ PROPS = {
         "H[g_u+s,g_w+t] = sum_e sum_{x,y in e}[g_x=g_u, g_y=g_w](J_x^T Omega J_y)[s,t] and b likewise for free vertices, identity/zero for fixed ones.",
         level_note="Hand model (Model/Assembly.lean) tied by tools/harness/assembly.py; spsolve is a parameter.",
     ),
+    "C04": dict(
+        modules=["GraphSlam.Props.C04"],
+        theorem_files=["GraphSlam/Props/C04/*.lean", "GraphSlam/Theory/GaussNewton.lean"],
+        scan_files=["GraphSlam/Core/*.lean", "GraphSlam/Real/Instance.lean", "GraphSlam/Props/C12/*.lean", "GraphSlam/Props/C03/*.lean"],
+        corr=[
+            ("harness.entry", "layer_a", dict(only=["EdgeOdometry.calc_error_R", "EdgeOdometry.calc_jacobians_R", "EdgeLandmark.calc_error_R", "EdgeLandmark.calc_jacobians_R", "PoseR"], quick=40, thorough=400)),
+            ("harness.entry", "assembly", dict(quick=60, thorough=2000)),
+            ("harness.entry", "ctl", dict(quick=(30, 200), thorough=(800, 10000))),
+        ],
+        search=("search.entry", "c04"),
+        always_search=True,
+        replay=("search.entry", "replay_generic"),
+        rule="ties: translator validation of the R^2/R^3 edge definitions, stage-wise assembly correspondence, exact report correspondence; plus (every run) end-to-end on the real optimiser: random connected R^2/R^3 graphs "
+        "(odometry and point-to-point landmark edges with offsets, multi-edges, random fixed subsets, initial guesses perturbed by up to 1e6) vs numpy.linalg.lstsq on the whitened stacked system: poses, final_chi2, converged",
+        assumptions=["real arithmetic; conditioning is a runtime matter (tolerances scale with the initial-guess magnitude; rank-deficient instances are counted and skipped)",
+                     "spsolve returns a solution of the assembled system", "symmetric positive-definite information; distinct vertices per edge"],
+        technique="Lean 4 proof: affine-residual lemmas on the regenerated R^n edge definitions + abstract Gauss-Newton matrix theory (Mathlib) + C03's assembly theorem + C12's report theorem",
+        level_text="Proved: R^2/R^3 edge errors are exactly affine in the box-plus increments with the constant matrices calc_jacobians returns; any solution of the assembled system minimises chi2 over all increments keeping fixed vertices fixed, uniquely when the reduced Hessian is PD; "
+        "connected graph + a fixed vertex + PD information => no non-zero zero-energy increment (reduced Hessian PD); after the first step the free gradient vanishes so every later step is zero, hence the chi2 sequence is constant and final_chi2 is the minimum, converged=True for max_iter>=2, tol>0. "
+        "The glue (stacked J-bar of C03 = the J of the theory) is by the theorems' shared definitions, not one end-to-end statement.",
+        level_note="Composition of C01/C03/C12 theorems with code-independent matrix theory; the end-to-end behaviour is additionally explored against numpy lstsq every run.",
+    ),
+    "C05": dict(
+        modules=["GraphSlam.Props.C05"],
+        theorem_files=["GraphSlam/Props/C05/*.lean", "GraphSlam/Theory/GaussNewton.lean"],
+        scan_files=["GraphSlam/Core/*.lean", "GraphSlam/Real/*.lean", "GraphSlam/Props/C12/*.lean"],
+        corr=[
+            ("harness.entry", "assembly", dict(quick=60, thorough=2000)),
+            ("harness.entry", "ctl", dict(quick=(30, 200), thorough=(800, 10000))),
+        ],
+        search=("search.entry", "c05"),
+        always_search=True,
+        replay=("search.entry", "replay_generic"),
+        rule="ties as C03/C12; plus (every run, exploration) random-walk SE(2)/SE(3) graphs with loop closures and landmark edges with offsets, initial guess perturbed by sigma<=0.2 (2d) / 0.05 (3d) in box-plus units, measurement noise sigma<=0.025, "
+        "tol in [1e-10,1e-4], max_iter=100: final_chi2<=initial_chi2, converged, Newton decrement from an independent dense model <= 20*tol*chi2+1e-10, noise-free runs reproduce every measurement to 1e-6",
+        assumptions=["the neighbourhood is calibrated empirically (tools/dev/calibrate_c05.py): no theorem gives its size"],
+        proved_level="partial",
+        unproved=["local convergence itself (existence and size of the basin, rate) is not proved; 'within calibrated bounds' is explored on every run, not proved", "float effects"],
+        technique="Lean 4 proof of the stationarity/fixed-point/descent facts (Mathlib calculus + matrix theory); convergence explored within a calibrated neighbourhood",
+        level_text="Proved: chi2 along a differentiable residual has gradient 2b with b=J^T Omega r (the assembled vector); with PD reduced Hessian the step is zero iff the free gradient vanishes; zero residual => chi2=0, b=0, zero step; the step is a descent direction of the quadratic model; "
+        "converged=True certifies non-increase and relative decrease < tol at the reported index. PARTIAL: convergence from a neighbourhood is explored (calibrated bounds), not proved.",
+        level_note="Partial by design (DESIGN.md C05).",
+    ),
     "C06": dict(
         modules=["GraphSlam.Props.C06"],
         theorem_files=["GraphSlam/Props/C06/*.lean", "GraphSlam/Props/C03/Assembled.lean"],
